@@ -436,7 +436,7 @@ func (c *C07Case) viaCompiler() (*Violation, string) {
 
 // ---- generator ----
 
-var c07Letters = []string{"a", "b", "c", "i", "m", "W", "é", "ß", "日", ".", ",", "!", "'", "-", "0", "1"}
+var c07Letters = []string{"a", "b", "c", "i", "m", "W", "é", "ß", "日", ".", ",", "!", "'", "-", "0", "1", "}"}
 var c07Codes = []string{"{PLAYER}", "{COLOR RED}", "{STR_VAR_1}", "{PAUSE 10}", "{PKMN}"}
 
 func genC07(t *rapid.T) *C07Case {
@@ -537,6 +537,6 @@ func TestC07_Regress(t *testing.T) { runRegress(t, "C07") }
 func TestC07_Format(t *testing.T) {
 	st := stat("C07")
 	st.SetRule("texts of 1-14 items (words over ASCII and multi-byte letters, punctuation and {CONTROL} codes with and without arguments glued inside words; explicit \\n \\l \\p \\N glued or spaced; runs of spaces, line break characters as separators) with a generated font table (per-glyph widths 0-12, optional default, control-code and space widths incl. 0) or the TEST font; maxLineLength = width of a random run of words -1/0/+1 (optionally + overlap), numLines 1-4, cursor overlap 0 / small / wider than a word; 3 in 4 cases call FormatText directly (half of them on a FontConfig that has just formatted the same text with another font), 1 in 4 go through text T { format(...) } with the parameters given positionally (both orders), by name, by font config (of the default font, or of the font named by a positional / named fontId while another font is the default), or by the CLI defaults. oracle: overlap 0 => output equals the harness' greedy reference formatter; always => envelope (words and explicit breaks in order and unchanged, only single spaces, line width <= max resp. max - overlap on prompt lines unless a single word, every inserted break necessary, \\n / \\l discipline with \\p reset). non-trivial = >= 1 inserted break and a line within 1 pixel of its limit; distinct by (text, parameters)")
-	st.Assume("backslashes occur only as the four break codes; braces are balanced and not nested", "the cursor overlap is demanded on lines ending in \\p, or in \\l at paragraph line index >= numLines-1 (weakest reading)", "a named/positional parameter value <= 0 means 'use the font config value'")
+	st.Assume("backslashes occur only as the four break codes; every '{' is closed and braces are not nested (a stray '}' is an ordinary character)", "the cursor overlap is demanded on lines ending in \\p, or in \\l at paragraph line index >= numLines-1 (weakest reading)", "a named/positional parameter value <= 0 means 'use the font config value'")
 	runRapid(t, "C07", "TestC07_Format", genC07, checkC07, c07Src)
 }
